@@ -167,6 +167,100 @@ Proof.
   intros g e F p H. unfold gather. apply sumQ_map_zero. intros c Hc. rewrite (H c Hc). ring.
 Qed.
 
+(* ------------------------------------------------------------------ charge conservation of the deposition *)
+Lemma sumQ_flat_map : forall (A B : Type) (f : A -> list B) (h : B -> Q) l,
+  sumQ (map h (flat_map f l)) == sumQ (map (fun i => sumQ (map h (f i))) l).
+Proof. induction l; simpl; [reflexivity|]. rewrite map_app, sumQ_app, IHl. reflexivity. Qed.
+
+Lemma sumQ_swap : forall (A B : Type) (f : A -> B -> Q) la lb,
+  sumQ (map (fun a => sumQ (map (fun b => f a b) lb)) la) == sumQ (map (fun b => sumQ (map (fun a => f a b) la)) lb).
+Proof.
+  induction la; intros; simpl.
+  - symmetry. apply sumQ_map_zero. reflexivity.
+  - rewrite IHla. rewrite <- sumQ_map_add. reflexivity.
+Qed.
+
+Lemma seq_ind_sum : forall (v : Q) (a : Z) m,
+  sumQ (map (fun i => if (Z.of_nat i =? a)%Z then v else 0) (seq 0 m)) ==
+  if ((0 <=? a) && (a <? Z.of_nat m))%Z then v else 0.
+Proof.
+  induction m.
+  - simpl. destruct (0 <=? a)%Z eqn:E; simpl; [|reflexivity].
+    replace (a <? 0)%Z with false; [reflexivity|]. symmetry. apply Z.ltb_ge. apply Z.leb_le in E. lia.
+  - rewrite seq_S, map_app, sumQ_app, IHm. cbn [map fold_right sumQ Nat.add].
+    destruct (Z.eqb_spec (Z.of_nat m) a).
+    + subst. replace (0 <=? Z.of_nat m)%Z with true by (symmetry; apply Z.leb_le; lia).
+      replace (Z.of_nat m <? Z.of_nat m)%Z with false by (symmetry; apply Z.ltb_ge; lia).
+      replace (Z.of_nat m <? Z.of_nat (S m))%Z with true by (symmetry; apply Z.ltb_lt; lia). cbn [andb]. ring.
+    + destruct (0 <=? a)%Z; cbn [andb]; [|ring].
+      destruct (Z.ltb_spec a (Z.of_nat m)); destruct (Z.ltb_spec a (Z.of_nat (S m))); try lia; ring.
+Qed.
+
+Lemma zrange_ind_sum : forall (v : Q) (a n : Z),
+  sumQ (map (fun i => if (a =? i)%Z then v else 0) (zrange n)) == if ((0 <=? a) && (a <? n))%Z then v else 0.
+Proof.
+  intros. unfold zrange. rewrite map_map.
+  rewrite sumQ_map_ext with (g := fun i => if (Z.of_nat i =? a)%Z then v else 0) by (intros; rewrite Z.eqb_sym; reflexivity).
+  rewrite seq_ind_sum. destruct (Z.leb_spec 0 n).
+  - rewrite Z2Nat.id by assumption. reflexivity.
+  - replace (Z.to_nat n) with 0%nat by lia. simpl.
+    destruct (0 <=? a)%Z eqn:E; simpl; [|reflexivity]. apply Z.leb_le in E.
+    replace (a <? 0)%Z with false by (symmetry; apply Z.ltb_ge; lia).
+    replace (a <? n)%Z with false by (symmetry; apply Z.ltb_ge; lia). reflexivity.
+Qed.
+
+(* summing an indicator of grid point c over the whole grid *)
+Lemma all_idx_ind_sum : forall sh c (v : Q),
+  sumQ (map (fun k => if idx_eqb c k then v else 0) (all_idx sh)) == if valid sh c then v else 0.
+Proof.
+  intros [[nx ny] nz] [[ci cj] cl] v. unfold all_idx.
+  rewrite sumQ_flat_map.
+  rewrite sumQ_map_ext with (g := fun i => if (ci =? i)%Z then (if ((0 <=? cj) && (cj <? ny) && ((0 <=? cl) && (cl <? nz)))%Z then v else 0) else 0).
+  - rewrite zrange_ind_sum. unfold valid.
+    destruct (0 <=? ci)%Z, (ci <? nx)%Z, (0 <=? cj)%Z, (cj <? ny)%Z, (0 <=? cl)%Z, (cl <? nz)%Z; reflexivity.
+  - intros i _. rewrite sumQ_flat_map.
+    rewrite sumQ_map_ext with (g := fun j => if (cj =? j)%Z then (if (ci =? i)%Z && ((0 <=? cl) && (cl <? nz))%Z then v else 0) else 0).
+    + rewrite zrange_ind_sum.
+      destruct (ci =? i)%Z, (0 <=? cj)%Z, (cj <? ny)%Z, (0 <=? cl)%Z, (cl <? nz)%Z; reflexivity.
+    + intros j _. rewrite map_map. simpl idx_eqb.
+      rewrite sumQ_map_ext with (g := fun l => if (cl =? l)%Z then (if (ci =? i)%Z && (cj =? j)%Z then v else 0) else 0).
+      * rewrite zrange_ind_sum.
+        destruct (ci =? i)%Z, (cj =? j)%Z, (0 <=? cl)%Z, (cl <? nz)%Z; reflexivity.
+      * intros l _. destruct (ci =? i)%Z, (cj =? j)%Z, (cl =? l)%Z; reflexivity.
+Qed.
+
+Definition on_grid (g : geom) (p : spart) : Prop :=
+  forall c, In c (corners (cell_of (nrm g p))) -> valid (g_shape g) c = true.
+
+(* a particle whose 8 surrounding grid points exist puts exactly its own weight on the grid *)
+Lemma contrib_total : forall g p, on_grid g p -> sumQ (map (contrib g p) (all_idx (g_shape g))) == 1.
+Proof.
+  intros g p H. unfold contrib.
+  rewrite (sumQ_swap _ _ (fun k c => if idx_eqb c k && valid (g_shape g) c then cw (nrm g p) c else 0)).
+  rewrite sumQ_map_ext with (g := cw (nrm g p)).
+  - apply cic_weights_sum1.
+  - intros c Hc. rewrite (H c Hc).
+    rewrite sumQ_map_ext with (g := fun k => if idx_eqb c k then cw (nrm g p) c else 0)
+      by (intros; rewrite andb_true_r; reflexivity).
+    rewrite all_idx_ind_sum, (H c Hc). reflexivity.
+Qed.
+
+(* charge conservation: the grid holds (sum of charge * survival) / cell volume *)
+Lemma deposit_conserves_charge : forall g ps, (forall p, In p ps -> on_grid g p) ->
+  sumQ (map (rho g ps) (all_idx (g_shape g))) == sumQ (map (fun p => s_q p * s_s p) ps) * inv_vol g.
+Proof.
+  intros g ps H. unfold rho.
+  rewrite sumQ_map_ext with (g := fun k => inv_vol g * sumQ (map (fun p => contrib g p k * (s_q p * s_s p)) ps))
+    by (intros; ring).
+  rewrite sumQ_map_scale.
+  rewrite (sumQ_swap _ _ (fun k p => contrib g p k * (s_q p * s_s p))).
+  rewrite sumQ_map_ext with (g := fun p => s_q p * s_s p).
+  - ring.
+  - intros p Hp.
+    rewrite sumQ_map_ext with (g := fun k => (s_q p * s_s p) * contrib g p k) by (intros; ring).
+    rewrite sumQ_map_scale, (contrib_total g p (H p Hp)). ring.
+Qed.
+
 (* ------------------------------------------------------------------ gathering *)
 Lemma gather_ext : forall g e F F' p, (forall k, F k == F' k) -> gather g e F p == gather g e F' p.
 Proof.
